@@ -303,6 +303,21 @@ def main(tier, seed):
               "8 retain_grad, 9 backward, 10 numpy(), 11 detach; first action fixed per partition + <= %d symbolic" % (2 if tier == "quick" else 3)})
 
 
+FUNCS = {
+    "C07": ["synapgrad.tensor:no_grad", "synapgrad.tensor:retain_grads", "synapgrad.tensor:Tensor.__init__",
+            "synapgrad.tensor:Tensor.backward", "synapgrad.tensor:Tensor.requires_grad", "synapgrad.tensor:Tensor.retain_grad",
+            "synapgrad.tensor:Tensor.numpy", "synapgrad.tensor:Tensor.detach", "synapgrad.functional:mul", "synapgrad.functional:exp"],
+    "C12": ["synapgrad.nn.modules:Module.__setattr__", "synapgrad.nn.modules:Module.register_parameter",
+            "synapgrad.nn.modules:Module.register_module", "synapgrad.nn.modules:Module.parameters",
+            "synapgrad.nn.modules:Module.submodules", "synapgrad.nn.modules:Module.num_params", "synapgrad.nn.modules:Module.train",
+            "synapgrad.nn.modules:Module.eval", "synapgrad.nn.modules:Module.freeze", "synapgrad.nn.modules:Module.unfreeze",
+            "synapgrad.nn.modules:Module.zero_grad", "synapgrad.nn.modules:Sequential.__init__", "synapgrad.nn.modules:Sequential.forward"],
+    "C18": ["synapgrad.nn.utils.data:DataLoader.__init__", "synapgrad.nn.utils.data:DataLoader.__len__",
+            "synapgrad.nn.utils.data:DataLoader.__iter__", "synapgrad.nn.utils.data:DataLoader.__next__",
+            "synapgrad.nn.utils.data:DataLoader.__getitem__"],
+}
+
+
 def finish(prop, tier, seed, results, t0, bounds):
     """shared by the CrossHair-based checks: known findings, VIOLATION lines, evidence"""
     import json
@@ -350,8 +365,7 @@ def finish(prop, tier, seed, results, t0, bounds):
         "solver_time_s": round(sum(r.get("wall_s", 0) for r in results), 1), "bounds": bounds, "exhaustive": len(unk) == 0,
         "rule": "one state = one execution path of the harness interpreter loop explored by CrossHair (z3 decides branch "
                 "feasibility over the symbolic action history); partitions fix the first action",
-        "functions_encoded": ["synapgrad.tensor:no_grad", "synapgrad.tensor:retain_grads", "synapgrad.tensor:Tensor.__init__",
-                              "synapgrad.tensor:Tensor.backward", "synapgrad.tensor:Tensor.requires_grad", "synapgrad.tensor:Tensor.retain_grad"],
+        "functions_encoded": FUNCS.get(prop, []),
         "known_findings_hit": [k["what"] for k, _ in known.values()], "unlisted_violations": n_viol,
         "stubs": ["tensor data is concrete (values are irrelevant to the flags); CrossHair realises symbolic values at the NumPy boundary"],
     }
